@@ -1598,6 +1598,7 @@ class World:
             kw["stdin"] = fh
         else:
             kw["input"] = stdin
+        _mx = mx_begin(self, "run", argv, env, stdin)
         try:
             pr = subprocess.run([self.bin] + list(argv), env=e, stdout=subprocess.PIPE, stderr=subprocess.PIPE,
                                 start_new_session=True, timeout=timeout, cwd=self.dir, **kw)
@@ -1609,6 +1610,7 @@ class World:
                 fh.close()
         self.nruns += 1
         r = Run(list(argv), dict(env or {}), ("<" + stdin[1]) if isinstance(stdin, tuple) else stdin, rc, out, err)
+        mx_end(_mx, rc, out, err)
         return r
 
     def close(self):
@@ -1649,11 +1651,13 @@ def parse_block(text):
 
 
 class ProcProp(KProp):
-    """process-level property: direct oracles; `model_expect` is the hook for a future CLI model"""
+    """process-level property: direct oracles on every run; the runs are RECORDED (World.mx_log) and compared with the CLI model
+    afterwards in one batch (mx_compare)"""
 
     def model_expect(self, world, argv, env=None, stdin=None):
-        """per-run hook of the direct checks: None.  The CLI model (Model/CliGlue.v) is evaluated in BATCHES on small worlds
-        by model_cli_part / model_expect_case (one coqc per run would cost seconds); see c12_model_cases etc."""
+        """per-run hook of the direct checks: None (one coqc per run would cost seconds).  The CLI model (Model/CliGlue.v) is
+        evaluated in BATCHES: on the recorded runs of the matrices themselves (mx_compare) and on the model's own case sets
+        (model_cli_part / model_expect_case; see c12_model_cases etc.)."""
         return None
 
     def viol(self, ctx, scenario, commands, expected, observed, key=None):
@@ -1885,7 +1889,9 @@ class C16(ProcProp):
             "of the private key; a wrong / earlier password gives exit 1 and no key, whatever the surroundings; "
             "non-trivial = all")
     assumptions = ["fresh salts come from the operating system's generator: distinctness is observed per history, not proved",
-                   "the CLI process is judged by direct oracles and, for 16 change-pass / extract-pub / generate runs, compared with the CLI model; its building blocks lock/unlock/encode "
+                   "the CLI process is judged by direct oracles and compared with the CLI model: every run of the process histories that has a UTF-8 "
+                   "environment (quick 71 of 100; salts and generated keys recovered from the output; evidence model-compared:histories, "
+                   "model-skipped:*) and 16 change-pass / extract-pub / generate runs of the model's own case set; its building blocks lock/unlock/encode "
                    "are compared with the model in-process"]
 
     def explore(self, ctx):
@@ -1902,6 +1908,7 @@ class C16(ProcProp):
     def proc_histories(self, ctx, nh):
         rng = ctx.rng
         w = World()
+        w.mx_log = []          # every process run below is recorded and compared with the CLI model in one batch (mx_compare)
         try:
             plans = []
             for h in range(nh):
@@ -1926,6 +1933,7 @@ class C16(ProcProp):
             self.count(ctx, "proc:runs", w.nruns)
         finally:
             w.close()
+        mx_compare(ctx, w, mx_matrix({"run": "histories", "nonutf8": "non-utf8-env", "setup": "no"}))
 
     def one_history(self, w, pl):
         runs, strs, pubs = [], [], []
@@ -2309,6 +2317,7 @@ def run_fed(world, argv, env, chunks, gap=0.1, prompt=b"Key name: ", timeout=120
     e = {"PATH": "/usr/bin:/bin", "HOME": world.dir, "LANG": "C.UTF-8"}
     if env:
         e.update(env)
+    _mx = mx_begin(world, "fed", argv, env, b"".join(chunks))
     pr = subprocess.Popen([world.bin] + list(argv), env=e, stdin=subprocess.PIPE, stdout=subprocess.PIPE, stderr=subprocess.PIPE,
                           start_new_session=True, cwd=world.dir, bufsize=0)
     seen = b""
@@ -2342,6 +2351,7 @@ def run_fed(world, argv, env, chunks, gap=0.1, prompt=b"Key name: ", timeout=120
         out, err = pr.communicate()
         rc, err = 124, (err or b"") + b"\n[timeout]"
     world.nruns += 1
+    mx_end(_mx, rc, out or b"", seen + (err or b""))
     shown = b" | ".join(chunks)
     return Run(list(argv), dict(env or {}), "%d write(s), %.0f ms apart: %s" % (len(chunks), gap * 1000, " | ".join(c.hex() for c in chunks)) if len(chunks) > 1 else shown,
                rc, out or b"", seen + (err or b""))
@@ -2428,8 +2438,16 @@ class C14(ProcProp):
             "fall inside the Name / PublicKey / PrivateKey value of the first, second or third generated block, between its lines, right "
             "before / behind it, or lie wholly before the generated keys: same judgement, then EVERY key of the file (the old one and each "
             "generated one) encrypts to itself and decrypts through -k F (tools/props_kvs.py::c14_big); "
-            "non-trivial = every run")
-    assumptions = ["the histories are judged by direct oracles; in addition every step of 4 (thorough 6) short histories is compared with the CLI "
+            ""
+            "EVERY process run of the histories is recorded and compared in one batch with the CLI model (Run/RunCli.v::run_cli_tree_x): the "
+            "random bytes of a key generation are RECOVERED from the key it printed (the salt, and the private key by unlocking it with the "
+            "run's password), so the model must reproduce the file byte for byte - quick 87 of 300 generations (seed 1; the X25519 of a fresh "
+            "key costs 3 s of vm_compute), the others up to lengths on a stand-in stream (131), thorough all byte for byte; NOT compared, "
+            "counted by reason (model-skipped:*): F a symbolic link (50), round trips over 6 KiB (6), quick tier: the encrypt / decrypt round "
+            "trips with the freshly generated keys (82); non-trivial = every run")
+    assumptions = ["the histories are judged by direct oracles AND, step by step, by the CLI model on the recovered random bytes (quick: a budgeted "
+                   "part byte for byte, the rest up to lengths; evidence: model-compared:*, model-compared-lengths-only:*, model-skipped:*); "
+                   "symbolic-link states are judged by the direct oracles only; in addition every step of 4 (thorough 6) short histories is compared with the CLI "
                    "model (Model/CliGlue.v::real_cli_main with the injected random stream), each step started from the real file of the previous one"]
 
     def initial_states(self, ctx):
@@ -2473,6 +2491,7 @@ class C14(ProcProp):
                 hid += 1
         plans += self.prompt_plans(ctx, states, hid)
         w = World()
+        w.mx_log = []          # every process run below is recorded and compared with the CLI model in one batch (mx_compare)
         try:
             recs = self.pmap(lambda pl: self.one_history(w, pl), plans)
             self.judge_all(ctx, recs)
@@ -2485,6 +2504,7 @@ class C14(ProcProp):
         finally:
             w.close()
         ctx.search_note = "direct oracle over %d histories" % (len(plans) + nbig)
+        mx_compare(ctx, w, mx_matrix({"run": "histories", "fed": "prompt-deliveries", "setup": "no"}))
         # every generation step against the CLI model, started from the real file of the previous step
         model_cli_part(ctx, c14_model_cases)
 
@@ -2779,6 +2799,7 @@ def run_with_stdout(w, argv, env, mode, stdin_file=None, timeout=180):
     e = {"PATH": "/usr/bin:/bin", "HOME": w.dir, "LANG": "C.UTF-8"}
     e.update(env)
     fin = open(os.path.join(w.dir, stdin_file), "rb") if stdin_file else subprocess.DEVNULL
+    _mx = mx_begin(w, "stdout", argv, env, ("file", stdin_file) if stdin_file else None, captured=(mode != "closed"))
     try:
         if mode == "closed":
             r, wr = os.pipe()
@@ -2800,6 +2821,7 @@ def run_with_stdout(w, argv, env, mode, stdin_file=None, timeout=180):
         if stdin_file:
             fin.close()
     w.nruns += 1
+    mx_end(_mx, p.returncode, out, err)
     return Run(argv, {k: v for k, v in env.items()}, ("<" + stdin_file) if stdin_file else None, p.returncode, out, err)
 
 
@@ -2888,6 +2910,7 @@ def nonutf8_password_checks(ctx, w, scope, locked=None):
         name, argv, env, sin, var, outp = j
         e = {b"PATH": b"/usr/bin:/bin", b"HOME": os.fsencode(w.dir)}
         e.update(env)
+        _mx = mx_begin(w, "nonutf8", argv, env, sin)
         try:
             pr = subprocess.run([w.bin] + argv, env=e, input=sin, stdout=subprocess.PIPE, stderr=subprocess.PIPE, start_new_session=True,
                                 timeout=120, cwd=w.dir)
@@ -2895,6 +2918,7 @@ def nonutf8_password_checks(ctx, w, scope, locked=None):
         except subprocess.TimeoutExpired:
             rc, out, err = 124, b"", b"[timeout]"
         w.nruns += 1
+        mx_end(_mx, rc, out, err)
         made = w.read(outp) if outp else None
         if outp and made is not None and var is not None:
             os.remove(w.p(outp))
@@ -3013,6 +3037,7 @@ def kvc_run(w, argv, env=None, stdin=None, cwd=None, timeout=120, stdout="pipe",
     else:
         sin, data = subprocess.PIPE, stdin
     chunks, done, th = [], threading.Event(), None
+    _mx = mx_begin(w, "kvc", argv, env, stdin, cwd=cwd, captured=(stdout == "pipe"))
     if drain_fd is not None:
         th = threading.Thread(target=kvc_drain, args=(drain_fd, done, chunks, settle), daemon=True)
         th.start()
@@ -3034,6 +3059,7 @@ def kvc_run(w, argv, env=None, stdin=None, cwd=None, timeout=120, stdout="pipe",
         if th:
             th.join(timeout=30)
     w.nruns += 1
+    mx_end(_mx, rc, out, err)
     r = Run(list(argv), dict(env or {}), ("<" + stdin[1]) if isinstance(stdin, tuple) else stdin, rc, out or b"", err or b"")
     return r, b"".join(chunks)
 
@@ -3086,8 +3112,20 @@ class C12(ProcProp):
             "recipient's name given to --to as well; sender keys with bit 255 set (shared with C05: props.s4a_c05_key_bytes); operands spelled "
             "like the tool's own words (34 words: command names, aliases, option names without dashes, help, version) as input file, -o target, "
             "-t / -f key name, -k / KESTREL_KEYRING path, and as a recipient who is not in the keyring: the operation is carried out resp. refused "
-            "like for any other name; non-trivial = every run")
-    assumptions = ["the full wiring matrix is judged by direct oracles; the CLI model (Model/CliGlue.v::real_cli_main) is compared with the "
+            "like for any other name; "
+            "EVERY process run above (the wiring matrix, the fixed-wiring decryptions of what "
+            "it produced, the runs that build the world, the output targets, the deliveries) is recorded - argv, KESTREL_ variables, stdin, "
+            "the part of the tree it can name before and after, exit code, stdout, stderr - and compared in one batch with the CLI model "
+            "(Run/RunCli.v::run_cli_tree_x: exit code, message class, stdout, the resulting tree byte for byte; random bytes: the injected "
+            "stream, or recovered from the output of password encrypt / key generate; key-mode encryptions on operating-system randomness: "
+            "lengths only): quick 670 of 2 095 runs (seed 1: 652 byte for byte, 18 lengths only; budget VERIF_MX_BUDGET = 60 s x VERIF_JOBS of estimated CPU), thorough every "
+            "run the model can express; NOT compared, counted by reason (model-skipped:*): input streams over 6 KiB (two-chunk files, 1 MiB "
+            "deliveries: 900), worlds over 16 KiB (8), symbolic links / FIFOs / devices / terminals (137), stdout not a captured pipe (59), "
+            "non-UTF-8 environment values (30), quick tier: runs over the budget (291); non-trivial = every run")
+    assumptions = ["the full wiring matrix is judged by direct oracles AND, run by run, by the CLI model (Model/CliGlue.v::real_cli_main) for the "
+                   "runs whose input is at most 6 KiB and whose files are regular files and directories (evidence: model-compared:*, "
+                   "model-skipped:*); the two-chunk inputs, 1 MiB deliveries, links, FIFOs, devices and terminals are judged by the direct "
+                   "oracles only; in addition the model is compared with the "
                    "real process on small worlds (150-byte plaintext, 4 wirings x 4 inputs, encrypt / password modes, help, version) and the "
                    "real argument parser with Model/CliParse.v on exhaustive short argument vectors",
                    "stderr is compared across wirings by its Error:/Success/Unknown-key lines; against the model by message CLASS",
@@ -3098,6 +3136,7 @@ class C12(ProcProp):
     def explore(self, ctx):
         rng = ctx.rng
         w = FileWorld()
+        w.mx_log = []          # every process run below is recorded and compared with the CLI model in one batch (mx_compare)
         try:
             w.setup(ctx)
             jobs = []
@@ -3218,7 +3257,10 @@ class C12(ProcProp):
         finally:
             w.close()
         ctx.search_note = "direct oracle over %d process runs" % ctx.evaluations
-        # correspondence: the real parser vs Model/CliParse.v; the real process vs Model/CliGlue.v::real_cli_main
+        # correspondence: the recorded runs of the matrices above vs the CLI model; the real parser vs Model/CliParse.v; the real
+        # process vs Model/CliGlue.v::real_cli_main on the model's own case sets
+        mx_compare(ctx, w, mx_matrix({"run": "wiring-matrix", "kvc": "output-targets", "stdout": "delivery-1MiB", "nonutf8": "non-utf8-env",
+                                      "setup": "gen"}))
         parse_correspondence(ctx)
         model_cli_part(ctx, lambda ctx, mw, root: c12_model_cases(ctx, mw) + c12_target_model_cases(ctx, mw) + kvw_model_cases(ctx, mw, root, "c12"))
 
@@ -4097,8 +4139,16 @@ class C13(ProcProp):
             "guises (plain, './', 'sub/../', absolute, '//', non-ASCII, a hard link, a symbolic link to the file / chained / absolute / pointing up, a "
             "symbolically linked directory relative / absolute / behind '..', from three other working directories, absent, dangling, a directory): "
             "exit 1 and the run's whole tree unchanged; two different spellings of the one file (12 pairs; quick 3 per command) are the recorded "
-            "alias observation: counted, judged only when the program itself refuses them; non-trivial = every run")
-    assumptions = ["all causes x wirings are judged by direct oracles; one run per failure-cause class x {absent, sentinel} is compared with the "
+            "alias observation: counted, judged only when the program itself refuses them; "
+            "EVERY process run of "
+            "the causes matrix and of the whole-tree part is recorded and compared in one batch with the CLI model (Run/RunCli.v::run_cli_tree_x: "
+            "exit code, message class, stdout, the resulting tree byte for byte - for the whole-tree part the COMPLETE tree of the private "
+            "directory): quick 689 of 1 063 runs (seed 1), thorough every run the model can express; NOT compared, counted by reason "
+            "(model-skipped:*): later-chunk failures and other inputs over 6 KiB (167), worlds over 16 KiB (header damage on the 66 KB file: 45), "
+            "output locations that are or pass through a symbolic link (132) or a FIFO (30); non-trivial = every run")
+    assumptions = ["all causes x wirings are judged by direct oracles AND, run by run, by the CLI model for the runs the model can express within "
+                   "6 KiB of input (evidence: model-compared:causes, model-compared:whole-tree, model-skipped:*); in addition one run per "
+                   "failure-cause class x {absent, sentinel} is compared with the "
                    "CLI model (exit code, message class, stdout, content of the output path)",
                    "later-chunk failures (files over 64 KiB) are not evaluated in the model: too large for vm_compute; a later-chunk failure "
                    "on a two-chunk file with SMALL chunks (written by an independent encoder) is, in the one-file-two-names cases",
@@ -4321,6 +4371,7 @@ class C13(ProcProp):
     def explore(self, ctx):
         rng = ctx.rng
         w = FileWorld()
+        w.mx_log = []          # every process run below is recorded and compared with the CLI model in one batch (mx_compare)
         try:
             w.setup(ctx)
             self.dave_pub = make_keys(ctx, 1)[0][2]
@@ -4384,6 +4435,8 @@ class C13(ProcProp):
         finally:
             w.close()
         ctx.search_note = "direct oracle over %d process runs" % ctx.evaluations
+        # the recorded runs of both parts above against the CLI model
+        mx_compare(ctx, w, mx_matrix({"run": "causes", "kvc": "whole-tree", "setup": "gen"}))
         # one run per failure-cause class x {absent, sentinel} against the CLI model
         model_cli_part(ctx, lambda ctx, mw, root: c13_model_cases(ctx, mw) + kvw_model_cases(ctx, mw, root, "c13"))
 
@@ -5694,3 +5747,594 @@ def model_expect_case(ctx, case):
     if not m:
         return None
     return {"status": int(m.group(1)), "exit": int(m.group(3)), "stdout": bytes.fromhex(m.group(2)), "extra": bytes.fromhex(m.group(4))}
+
+
+# =========================================================================== EVERY process run of the direct-oracle matrices vs the CLI model
+# (mx_*).  The process-running helpers (World.run, kvc_run, run_fed, run_with_stdout, the non-UTF-8 runs) call mx_begin /
+# mx_end when the world carries a log (w.mx_log = []): what the model needs is RECORDED per run -- argv, the KESTREL_ variables,
+# the stdin bytes, the part of the file-system tree the run can name (every path string among its arguments and variables,
+# walked component by component; the whole tree when the run has a private working directory) before and after, exit code,
+# stdout, stderr.  mx_compare turns the records into MxCase objects (a KvwCase: the existing tree-world encoder) and evaluates
+# them through vlib.run_model in shards.  Runs the model's world cannot express, or whose data would cost minutes in vm_compute,
+# are NOT compared and are counted by reason (model-skipped:<reason>); nothing is excluded silently.
+MX_DATA_MAX = 6144             # input stream of a run that reaches the library (bytes): above, no model evaluation
+MX_WORLD_MAX = 16 * 1024       # everything the run can name, together (a 264 KiB world costs 38 s and 2.3 GB in coqc: the literal)
+MX_STREAM_CLASSES = set([0, 3, 4, 61, 62, 63, 64, 71, 72, 73, 74, 75, 78, 79, 80, 90, 91, 1])   # the library ran over the input
+MX_BASE_POINT = bytes([9]) + bytes(31)
+# estimated CPU seconds of coqc (quick-tier budget), calibrated on the evidence of C12 / C13 / C14 (estimate ~ measured cpu-seconds:model-matrix)
+MX_COST_DH = 3.0               # an X25519 with what hangs on it
+MX_COST_BYTE = 0.0004          # a byte of the input stream through ChaCha20-Poly1305
+MX_COST_CASE = 0.12
+MX_COST_WORLD_BYTE = 0.00004   # a byte of the hex literals: the world, and the observed tree (superlinear far above the 16 KiB bound)
+
+
+def mx_walk(R, tok, nodes, notes):
+    """what the path string `tok` names for a process whose working directory is R, component by component the way the kernel
+    walks it, nothing followed: every existing directory and the regular file at the end are registered in `nodes` (path
+    relative to R -> bytes | None for a directory); a link, FIFO or device on the way, or an existing node outside R that is
+    not one of R's ancestors, is noted (the model's world is the tree below R plus R's ancestors)."""
+    import stat as _st
+    if not tok or "\x00" in tok:
+        return
+    cur = "/" if tok.startswith("/") else R
+    for c in tok.split("/"):
+        if c in ("", "."):
+            continue
+        if c == "..":
+            cur = os.path.dirname(cur)
+            continue
+        nxt = os.path.join(cur, c)
+        try:
+            st = os.lstat(nxt)
+        except (OSError, ValueError):
+            return
+        inside = nxt.startswith(R + "/")
+        above = nxt == R or R.startswith(nxt + "/")
+        if _st.S_ISDIR(st.st_mode):
+            if inside:
+                nodes[nxt[len(R) + 1:]] = None
+            elif not above:
+                notes.append("outside")
+            cur = nxt
+            continue
+        if _st.S_ISREG(st.st_mode):
+            if inside:
+                try:
+                    with open(nxt, "rb") as f:
+                        nodes[nxt[len(R) + 1:]] = f.read()
+                except OSError:
+                    notes.append("special:unreadable")
+            else:
+                notes.append("outside")
+            return
+        kind = ("symlink" if _st.S_ISLNK(st.st_mode) else "fifo" if _st.S_ISFIFO(st.st_mode) else
+                "character-device" if _st.S_ISCHR(st.st_mode) else "other")
+        notes.append("special:" + kind)
+        return
+
+
+def mx_tokens(argv, env):
+    toks = []
+    for a in list(argv) + [env.get("KESTREL_KEYRING") or ""]:
+        for t in ((a, a.split("=", 1)[1]) if "=" in a else (a,)):
+            if t and t not in toks:
+                toks.append(t)
+    return toks
+
+
+def mx_state(rec):
+    """the tree the run can see below its working directory: relative path -> bytes | None (directory) | ('other', kind)"""
+    nodes, notes = {}, []
+    if rec["private"]:
+        for k, v in kvw_read_tree(rec["R"]).items():
+            nodes[k] = v
+            if isinstance(v, tuple):
+                notes.append("special:" + str(v[1]))
+    for t in rec["tokens"]:
+        mx_walk(rec["R"], t, nodes, notes)
+    return nodes, notes
+
+
+def mx_begin(w, site, argv, env, stdin, cwd=None, captured=True):
+    """called by the process-running helpers before a run: None when the world records nothing"""
+    log = getattr(w, "mx_log", None)
+    if log is None:
+        return None
+    rec = {"log": log, "site": site, "argv": list(argv), "skip": None, "R": cwd or w.dir, "private": bool(cwd) and cwd != w.dir,
+           "captured": captured}
+    try:
+        env = dict(env or {})
+        if not all(isinstance(a, str) for a in argv):
+            rec["skip"] = "argv-not-text"
+            return rec
+        try:
+            for a in argv:
+                a.encode("utf-8")
+        except UnicodeError:
+            rec["skip"] = "argv-not-text"
+            return rec
+        if not all(isinstance(k, str) and isinstance(v, str) for k, v in env.items()):
+            rec["skip"] = "environment-not-utf8"
+            return rec
+        rec["env"] = {k: v for k, v in env.items() if k.startswith("KESTREL_")}
+        if stdin is None:
+            rec["stdin"] = b""
+        elif isinstance(stdin, tuple):
+            with open(os.path.join(w.dir, stdin[1]), "rb") as f:
+                rec["stdin"] = f.read()
+        else:
+            rec["stdin"] = bytes(stdin)
+        rec["tokens"] = mx_tokens(rec["argv"], rec["env"])
+        rec["before"], rec["notes"] = mx_state(rec)
+    except Exception as ex:                                   # the recorder must never disturb the direct checks
+        rec["skip"] = "recorder-error:" + type(ex).__name__
+    return rec
+
+
+def mx_end(rec, rc, out, err):
+    if rec is None:
+        return
+    rec["rc"], rec["out"], rec["err"] = rc, out or b"", err or b""
+    if rec["skip"] is None:
+        try:
+            rec["after"], notes = mx_state(rec)
+            rec["notes"] = rec["notes"] + notes
+        except Exception as ex:
+            rec["skip"] = "recorder-error:" + type(ex).__name__
+    rec.pop("log").append(rec)
+
+
+MX_OPT_NAMES = {"t": "to", "to": "to", "f": "from", "from": "from", "o": "output", "output": "output", "k": "keyring", "keyring": "keyring"}
+
+
+def mx_scan(argv):
+    """a tolerant reading of an argument vector the generators build: command class, option values, positional arguments.  It only
+    chooses what to PRECOMPUTE (X25519 memo entries, which random bytes can be recovered from the output): a wrong guess costs
+    evaluation time or turns an exact comparison into a lengths-only one, it cannot make a comparison pass."""
+    import re
+    a = list(argv)
+    cmd, i = None, 1
+    if a[:1] and a[0] in ("encrypt", "enc"):
+        cmd = "enc"
+    elif a[:1] and a[0] in ("decrypt", "dec"):
+        cmd = "dec"
+    elif len(a) >= 2 and a[0] in ("password", "pass") and a[1] in ("encrypt", "enc", "decrypt", "dec"):
+        cmd, i = ("penc" if a[1].startswith("enc") else "pdec"), 2
+    elif len(a) >= 2 and a[0] == "key" and a[1] in ("generate", "gen", "change-pass", "extract-pub"):
+        cmd, i = {"generate": "gen", "gen": "gen", "change-pass": "chpass", "extract-pub": "xpub"}[a[1]], 2
+    opts, pos = {}, []
+    while i < len(a):
+        m = re.match(r"^--?([a-z]+)(?:=(.*))?$", a[i], re.S)
+        if m and m.group(1) in MX_OPT_NAMES:
+            if m.group(2) is not None:
+                opts[MX_OPT_NAMES[m.group(1)]] = m.group(2)
+            elif i + 1 < len(a):
+                opts[MX_OPT_NAMES[m.group(1)]] = a[i + 1]
+                i += 1
+        elif not a[i].startswith("-"):
+            pos.append(a[i])
+        i += 1
+    return cmd, opts, pos
+
+
+def mx_lookup(nodes, path):
+    """the regular file a simple relative path string names in a recorded state (None: not a plain file there)"""
+    if not path or path.startswith("/"):
+        return None
+    v = nodes.get(os.path.normpath(path))
+    return v if isinstance(v, bytes) else None
+
+
+def mx_keyring_entries(data):
+    out, cur = [], None
+    for line in data.decode("utf-8", "replace").split("\n"):
+        l = rust_trim(line)
+        if l == "[Key]":
+            cur = {}
+            out.append(cur)
+        elif cur is not None and "=" in l and not l.startswith("#"):
+            k, v = l.split("=", 1)
+            cur.setdefault(rust_trim(k), rust_trim(v))
+    return out
+
+
+def mx_pub32(enc):
+    d = b64_lenient(enc.encode("utf-8") if isinstance(enc, str) else enc)
+    return d[:32] if d is not None and len(d) == 36 else None
+
+
+def mx_locked_salt(s):
+    d = b64_lenient(s.encode("utf-8") if isinstance(s, str) else s)
+    return d[4:36] if d is not None and len(d) == 84 else None
+
+
+class MxCase(KvwCase):
+    """a RECORDED process run as a tree-world case: rundir = the working directory of the real run.  The model term is the one of
+    KvwCase with the batch runner of Run/RunCli.v (X25519 memo table DH, lengths-only flag)."""
+
+    def model_term(self):
+        t = KvwCase.model_term(self)
+        head = "run_cli_tree T "
+        assert t.startswith(head)
+        return "run_cli_tree_x T DH %s %s" % ("true" if self.a.get("mask") else "false", t[len(head):])
+
+    def kdf_need(self):
+        a = self.a
+        pws = [bytes.fromhex(x) for x in (a["pw"], a["npw"]) if x is not None]
+        rnd = bytes.fromhex(a["rnd"])
+        if mx_scan(a["argv"])[0] == "gen":
+            # key generate locks the new key under (KESTREL_PASSWORD, the second block drawn) and unlocks nothing: the keys already
+            # in the file are not looked at (a missing table entry would show as a disagreement, not pass)
+            return [(p, rnd[i:i + 32]) for p in pws[:1] for i in (0, 32) if len(rnd) >= i + 32]
+        need = CliCase.kdf_need(self)
+        sin = bytes.fromhex(a["stdin"])
+        if sin[:3] == b"egk" and len(sin) >= 36:
+            need += [(p, sin[4:36]) for p in pws]
+        return need
+
+    def describe(self):
+        d = KvwCase.describe(self)
+        d["recorded_run_of"] = self.a.get("matrix")
+        return d
+
+
+def mx_matrix(names):
+    """recorded run -> name of the matrix it belongs to: by the helper that ran it (names: site -> matrix), the runs that build
+    the world (key generate / encryptions into ct_* / pct_*) and the fixed-wiring decryptions of what a run produced apart"""
+    def f(rec):
+        m = names.get(rec["site"], rec["site"])
+        if rec["site"] != "run" or not names.get("setup"):
+            return m
+        cmd, opts, pos = mx_scan(rec["argv"])
+        o = opts.get("output") or ""
+        if o.startswith(("ct_", "pct_")) or (cmd == "gen" and names["setup"] == "gen" and not o):
+            return "world-setup"
+        if o.endswith(".pt") or (pos and pos[0].startswith("tg_")):
+            return m + "-follow-up-decrypt"
+        return m
+    return f
+
+
+def mx_prepare(rec):
+    """skip reason or None; fills rec['code'], rec['text'], rec['cmd'] ..."""
+    if rec["skip"]:
+        return rec["skip"].split(":")[0] if rec["skip"].startswith("recorder-error") else rec["skip"]
+    if rec["rc"] == 124 and b"[timeout]" in rec["err"]:
+        return "timeout"
+    if not rec["captured"]:
+        return "stdout-not-captured"
+    for n in rec["notes"]:
+        if n.startswith("special:"):
+            return "special-file:" + n.split(":", 1)[1]
+    if "outside" in rec["notes"]:
+        return "path-outside-run-directory"
+    for k, v in list(rec["before"].items()) + list(rec["after"].items()):
+        if isinstance(v, tuple):
+            return "special-file:" + str(v[1])
+    help_txt, ver_txt = cli_texts()
+    rec["code"], rec["text"] = kvw_classify(rec["argv"], rec["rc"], rec["out"], rec["err"], help_txt, ver_txt)
+    if rec["code"] in (3, 4):
+        # the sender's name / key as PRINTED, up to the line feed: classify_run cuts stderr with str.splitlines, which also
+        # breaks at U+001C..U+001E, U+0085, U+2028, U+2029 and VT / FF -- characters a key name may contain
+        pre = "Success. File from: " if rec["code"] == 3 else "Unknown key: "
+        for l in rec["err"].decode("utf-8", "replace").split("\n"):
+            if l.startswith(pre):
+                rec["text"] = l[len(pre):].encode("utf-8")
+                break
+    rec["cmd"], rec["opts"], rec["pos"] = mx_scan(rec["argv"])
+    if rec["code"] in MX_STREAM_CLASSES and rec["cmd"] in ("enc", "dec", "penc", "pdec"):
+        inp = mx_lookup(rec["before"], rec["pos"][0]) if rec["pos"] else rec["stdin"]
+        rec["datalen"] = len(inp or b"")
+        if rec["datalen"] > MX_DATA_MAX:
+            return "data-over-%dKiB" % (MX_DATA_MAX // 1024)
+    else:
+        rec["datalen"] = 0
+    sizes = [len(v) for v in rec["before"].values() if isinstance(v, bytes)] + [len(rec["stdin"])]
+    if sum(sizes) > MX_WORLD_MAX:
+        return "world-over-%dKiB" % (MX_WORLD_MAX // 1024)
+    return None
+
+
+def mx_product(rec):
+    """the bytes a successful run produced: the -o file, or stdout"""
+    o = rec["opts"].get("output")
+    if o is None:
+        return rec["out"]
+    return mx_lookup(rec["after"], o)
+
+
+def mx_keys_of(rec):
+    """keyring entries the run consults and the locked private keys it would unlock: -> (entries, [(locked string, password)])"""
+    kr = rec["opts"].get("keyring") or rec["env"].get("KESTREL_KEYRING")
+    data = mx_lookup(rec["before"], kr) if kr else None
+    ents = mx_keyring_entries(data) if data else []
+    pw = rec["env"].get("KESTREL_PASSWORD")
+    want = []
+    if pw is not None:
+        names = [rec["opts"].get("from") if rec["cmd"] == "enc" else rec["opts"].get("to")]
+        for e in ents:
+            if e.get("Name") in names and e.get("PrivateKey"):
+                want.append((e["PrivateKey"], pw.encode("utf-8")))
+                break
+    return ents, want
+
+
+def mx_compare(ctx, w, matrix_of, budget=None):
+    """compare the recorded runs of world w with the CLI model.  matrix_of(rec) -> name of the matrix the run belongs to (for the
+    evidence counters).  quick tier: a CPU budget (VERIF_MX_BUDGET seconds of wall time at VERIF_JOBS shards, default 60) decides
+    how many of the runs that need an X25519 on a fresh key are evaluated exactly; thorough: everything that can be expressed."""
+    import random as _random, resource as _resource
+    t0 = time.time()
+    cpu0 = _resource.getrusage(_resource.RUSAGE_CHILDREN)
+    recs = list(getattr(w, "mx_log", None) or [])
+    w.mx_log = None
+    # the helpers run in threads: a canonical order, so that what a seed samples does not depend on scheduling
+    recs.sort(key=lambda r: (r["site"], r["R"] if r["private"] else "", repr(r["argv"]), repr(sorted((r.get("env") or {}).items())),
+                             hashlib.sha256(r.get("stdin") or b"").hexdigest()))
+    dist = collections.Counter()
+    rng = _random.Random(ctx.seed * 1000003 + 7919)
+    fake = bytes(rng.getrandbits(8) for _ in range(64))
+    todo = []
+    for rec in recs:
+        rec["matrix"] = matrix_of(rec)
+        why = mx_prepare(rec)
+        if why:
+            dist["model-skipped:" + why] += 1
+            dist["model-skipped-in:%s" % rec["matrix"]] += 1
+        else:
+            todo.append(rec)
+    # ---- keys the runs unlock (memo KEYS only: the implementation's unlock tells which scalar the model will feed to X25519)
+    asks = []
+    for rec in todo:
+        rec["ents"], rec["unlock"] = mx_keys_of(rec) if rec["cmd"] in ("enc", "dec") else ([], [])
+        pw = rec["env"].get("KESTREL_PASSWORD")
+        if rec["cmd"] == "xpub" and rec["pos"] and pw is not None:
+            rec["unlock"] = [(rec["pos"][0], pw.encode("utf-8"))]
+        if rec["cmd"] == "gen" and rec["rc"] == 0 and "KESTREL_VERIF_RANDOM" not in rec["env"] and pw is not None:
+            prod = mx_product(rec) or b""
+            locked = [l.split(b"=", 1)[1].strip() for l in prod.split(b"\n") if l.startswith(b"PrivateKey")]
+            if locked:
+                rec["gen_locked"] = locked[-1].decode("utf-8", "replace")
+                rec["unlock"] = [(rec["gen_locked"], pw.encode("utf-8"))]
+        for u in rec["unlock"]:
+            if u not in asks:
+                asks.append(u)
+    unl = {}
+    if asks:
+        for u, r in zip(asks, cli_ops(["sk_unlock %s %s" % (hexs(s.encode("utf-8")), hexs(p)) for s, p in asks])):
+            if r.get("outcome") == "ok":
+                unl[u] = unhex(r["out"])
+    # ---- who sent the files that decrypt (stderr of the successful runs), by ephemeral key: memo keys for the failing runs
+    def eph_of(rec):
+        inp = mx_lookup(rec["before"], rec["pos"][0]) if rec["pos"] else rec["stdin"]
+        return inp[4:36] if inp and len(inp) >= 36 and inp[:4] == b"egk\x10" else None
+    senders = {}
+    for rec in todo:
+        if rec["cmd"] == "dec" and rec["code"] in (3, 4) and eph_of(rec):
+            pk = None
+            if rec["code"] == 4:
+                pk = mx_pub32(rec["text"])
+            else:
+                for e in rec["ents"]:
+                    if e.get("Name", "").encode("utf-8") == rec["text"]:
+                        pk = mx_pub32(e.get("PublicKey", ""))
+            if pk:
+                senders.setdefault(eph_of(rec), set()).add(pk)
+    # ---- random bytes: injected | recovered from the output | a fixed stand-in (then nothing drawn may show: lengths only)
+    for rec in todo:
+        rec["mask"] = False
+        inj = rec["env"].get("KESTREL_VERIF_RANDOM")
+        rec["rnd"], rec["rnd_how"] = fake, "none-needed"
+        if inj is not None:
+            try:
+                rec["rnd"], rec["rnd_how"] = bytes.fromhex(inj), "injected"
+            except ValueError:
+                pass
+        elif rec["rc"] == 0 and rec["cmd"] == "penc":
+            prod = mx_product(rec)
+            if prod is not None and len(prod) >= 36:
+                rec["rnd"], rec["rnd_how"] = prod[4:36], "recovered"
+            else:
+                rec["mask"], rec["rnd_how"] = True, "stand-in"
+        elif rec["rc"] == 0 and rec["cmd"] == "chpass":
+            salt = mx_locked_salt(rec["out"].split(b"=", 1)[1].strip()) if b"=" in rec["out"] else None
+            if salt:
+                rec["rnd"], rec["rnd_how"] = salt, "recovered"
+            else:
+                rec["mask"], rec["rnd_how"] = True, "stand-in"
+        elif rec["rc"] == 0 and rec["cmd"] == "gen":
+            sk = unl.get(rec["unlock"][0]) if rec.get("unlock") else None
+            salt = mx_locked_salt(rec.get("gen_locked", ""))
+            if sk and salt:
+                rec["rnd"], rec["rnd_how"] = sk + salt, "recovered"
+            else:
+                rec["mask"], rec["rnd_how"] = True, "stand-in"
+        elif rec["rc"] == 0 and rec["cmd"] == "enc":
+            rec["mask"], rec["rnd_how"] = True, "stand-in"
+        if len(rec["rnd"]) < 64:
+            rec["rnd"] = rec["rnd"] + bytes(64 - len(rec["rnd"])) if len(rec["rnd"]) >= 32 else fake
+    # ---- X25519 pairs each run needs
+    def pairs_of(rec):
+        sks = [unl[u] for u in rec.get("unlock", []) if u in unl]
+        ps = []
+        if rec["cmd"] == "dec":
+            e = eph_of(rec)
+            for sk in sks:
+                ps += [(sk, MX_BASE_POINT)] + ([(sk, e)] if e else []) + [(sk, s) for s in sorted(senders.get(e, ()))]
+        elif rec["cmd"] == "enc":
+            to = [mx_pub32(x.get("PublicKey", "")) for x in rec["ents"] if x.get("Name") == rec["opts"].get("to")][:1]
+            e = rec["rnd"][32:64]
+            for sk in sks:
+                ps += [(sk, MX_BASE_POINT), (e, MX_BASE_POINT)] + [(k, p) for p in to if p for k in (e, sk)]
+        elif rec["cmd"] == "gen":
+            ps.append((rec["rnd"][:32], MX_BASE_POINT))
+        elif rec["cmd"] == "xpub":
+            ps += [(sk, MX_BASE_POINT) for sk in sks]
+        return [p for i, p in enumerate(ps) if p not in ps[:i]]
+    def recount():
+        fr = collections.Counter()
+        for rec in todo:
+            rec["pairs"] = pairs_of(rec)
+            fr.update(rec["pairs"])
+        return fr
+    freq = recount()
+    wbytes = lambda rec: sum(len(v) for st in (rec["before"], rec["after"]) for v in st.values() if isinstance(v, bytes)) + len(rec["stdin"])
+    cost0 = lambda rec: MX_COST_CASE + MX_COST_BYTE * rec["datalen"] + MX_COST_WORLD_BYTE * wbytes(rec)
+    cost = lambda rec: cost0(rec) + MX_COST_DH * len([p for p in rec["pairs"] if freq[p] < 2])
+    # ---- quick tier: the runs with an X25519 nobody shares (a freshly generated key, the ephemeral key of an os-random
+    # encryption) within the budget; the others: key generate -> lengths only on the stand-in stream, the rest -> skipped, counted
+    if not ctx.thorough():
+        if budget is None:
+            budget = float(os.environ.get("VERIF_MX_BUDGET", "60"))
+        cpu = budget * NPROC
+        drop = lambda r, why: (todo.remove(r), dist.update({"model-skipped:" + why: 1, "model-skipped-in:%s" % r["matrix"]: 1}))
+        for _ in range(6):
+            freq = recount()
+            over = sum(cost(r) for r in todo) + MX_COST_DH * len([p for p in freq if freq[p] >= 2]) - cpu
+            fresh = [r for r in todo if any(freq[p] < 2 for p in r["pairs"])]
+            if over <= 0 or not fresh:
+                break
+            rng.shuffle(fresh)
+            fresh.sort(key=lambda r: -len([p for p in r["pairs"] if freq[p] < 2]))      # the dearest first (stable: random among equals)
+            for r in fresh:
+                if over <= 0:
+                    break
+                over -= MX_COST_DH * len([p for p in r["pairs"] if freq[p] < 2])
+                if r["cmd"] == "gen" and r["rnd_how"] == "recovered":
+                    r["rnd"], r["mask"], r["rnd_how"] = fake, True, "stand-in (over the quick budget)"
+                else:
+                    drop(r, "fresh-key-X25519-over-the-quick-budget")
+        # the bulk (AEAD bytes, literals) over the budget as well: a deterministic sample of the runs with data
+        freq = recount()
+        over = sum(cost(r) for r in todo) + MX_COST_DH * len([p for p in freq if freq[p] >= 2]) - cpu
+        if over > 0:
+            heavy = [r for r in todo if r["datalen"] >= 256]
+            rng.shuffle(heavy)
+            for r in heavy:
+                if over <= 0:
+                    break
+                over -= cost(r)
+                drop(r, "sampled-out-over-the-quick-budget")
+            freq = recount()
+    # ---- cases
+    cases, seen = [], {}
+    for rec in sorted(todo, key=lambda r: -cost(r)):
+        env = rec["env"]
+        pw, npw = env.get("KESTREL_PASSWORD"), env.get("KESTREL_NEW_PASSWORD")
+        tree = {k: v for k, v in rec["before"].items()}
+        c = MxCase("%s: %s" % (rec["matrix"], " ".join(rec["argv"])[:160]), rec["argv"], tree, cwd="",
+                   pw=None if pw is None else pw.encode("utf-8"), npw=None if npw is None else npw.encode("utf-8"),
+                   keyring_env=env.get("KESTREL_KEYRING"), stdin=rec["stdin"], rnd=rec["rnd"][:64], tags=["model-matrix:" + rec["matrix"]])
+        c.a["rundir"], c.a["mask"], c.a["matrix"] = rec["R"], rec["mask"], rec["matrix"]
+        mk = (lambda b: bytes(len(b))) if rec["mask"] else (lambda b: b)
+        D = [x for x in rec["R"].split("/") if x]
+        before, after = rec["before"], rec["after"]
+        watch = sorted(set(tuple(D[:k]) for k in range(1, len(D) + 1)) | set(tuple(D + rel.split("/")) for rel in set(before) | set(after)))
+        c.a["watch"] = [list(p) for p in watch]
+        extra = (len(D) + len(after)).to_bytes(4, "big")
+        for p in watch:
+            rel = "/".join(p[len(D):])
+            if len(p) <= len(D) or (rel in after and after[rel] is None):
+                extra += b"\x02"
+            elif rel not in after:
+                extra += b"\x00"
+            else:
+                extra += b"\x01" + len(after[rel]).to_bytes(4, "big") + mk(after[rel])
+        rc = rec["rc"] if rec["rc"] >= 0 else 1000 - rec["rc"]
+        changed = sorted(k for k in set(before) | set(after) if before.get(k, 0) != after.get(k, 0))
+        c.result = {"id": None, "code": rec["code"], "outcome": "exit%d:class%d" % (rc, rec["code"]), "out": mk(rec["out"]), "consumed": rc,
+                    "trace": [], "extra": extra + rec["text"], "entries": None, "msg": "",
+                    "raw": "exit=%d class=%d stdout=%d bytes %s stderr=%r changed=%s random=%s%s" % (
+                        rc, rec["code"], len(rec["out"]), rec["out"][:40].hex(), rec["err"].decode("utf-8", "replace")[-200:],
+                        {k: (len(after[k]) if isinstance(after.get(k), bytes) else "dir" if k in after else "absent") for k in changed},
+                        rec["rnd_how"], ", lengths only" if rec["mask"] else "")}
+        c.mx_rec = rec
+        key = hashlib.sha256((c.model_term() + "\x00" + vlib.g_obs(c.result)).encode()).hexdigest()
+        if key in seen:
+            seen[key].mx_same.append(c)
+            continue
+        c.mx_same = []
+        seen[key] = c
+        cases.append(c)
+    def merge():
+        for k, v in dist.items():
+            ctx.distribution[k] = ctx.distribution.get(k, 0) + v
+    if not cases:
+        merge()
+        return
+    for i, c in enumerate(cases):
+        c.id = str(i + 1)
+    tag = ctx.pid + "x"
+    memo = [p for p, n in freq.most_common() if n >= 2]
+    t1 = time.time()
+    dh_prelude, dh_files = mx_dh_memo(memo, tag)
+    dist["seconds:model-matrix-x25519-memo"] = round(time.time() - t1, 1)
+    try:
+        t1 = time.time()
+        table = kdf_table_par(ctx.bin, cases)
+        dist["seconds:model-matrix-scrypt-table"] = round(time.time() - t1, 1)
+        dist["model-matrix:scrypt-table-entries"] = len(table)
+        prelude = cli_prelude() + dh_prelude
+        t1 = time.time()
+        log = vlib.run_model(cases, table, tag, extra_import=MODEL_IMPORT, prelude=prelude)
+        dist["seconds:model-matrix-coqc"] = round(time.time() - t1, 1)
+        dist["model-matrix:estimated-cpu-seconds"] = int(sum(cost(c.mx_rec) for c in cases) + MX_COST_DH * len(memo))
+        bad = [c for c in cases if c.agree is not True]
+        for c in cases:
+            n = 1 + len(c.mx_same)
+            for k in [c] + c.mx_same:
+                dist[("model-compared-lengths-only:" if k.a["mask"] else "model-compared:") + k.a["matrix"]] += 1
+                dist["model-random-bytes:" + k.mx_rec["rnd_how"].split(" (")[0]] += 1
+            if c.agree is True:
+                ctx.agreed += n
+        if bad:
+            shown = vlib.run_model(bad[:6], table, tag + "s", extra_import=MODEL_IMPORT, prelude=prelude, show=True)
+            for c in bad[:20]:
+                ctx.disagreements.append({"input": c.full(), "implementation": c.result["raw"][:600], "implementation_code": c.result["code"],
+                                          "model": shown.get(c.id, "model evaluation failed" if c.agree is None else "?")})
+            ctx.broken.append({"kind": "correspondence",
+                               "what": "correspondence %s: the CLI model and the recorded process runs of the direct-oracle matrices differ on %d of %d runs "
+                                       "(first: %s)%s" % (ctx.pid, sum(1 + len(c.mx_same) for c in bad), sum(1 + len(c.mx_same) for c in cases),
+                                                          bad[0].a["label"][:200], (" [" + log[-200:] + "]") if log else "")})
+    finally:
+        for f in dh_files:
+            for q in [f + ext for ext in (".v", ".vo", ".vok", ".vos", ".glob")] + [os.path.join(os.path.dirname(f), "." + os.path.basename(f) + ".aux")]:
+                try:
+                    os.remove(q)
+                except OSError:
+                    pass
+    dist["model-matrix:x25519-memo-entries"] = len(memo)
+    dist["model-matrix:distinct-evaluations"] = len(cases)
+    dist["seconds:model-matrix"] = round(time.time() - t0, 1)
+    cpu1 = _resource.getrusage(_resource.RUSAGE_CHILDREN)
+    dist["cpu-seconds:model-matrix"] = round(cpu1.ru_utime + cpu1.ru_stime - cpu0.ru_utime - cpu0.ru_stime, 1)
+    merge()
+
+
+def mx_dh_memo(pairs, tag):
+    """the X25519 memo of a batch, computed BY THE GALLINA DEFINITION: the pairs are dealt over VERIF_JOBS files
+    Run/cases/<tag>dh_<k>.v (`Definition dh_<k> := Eval vm_compute in [dh_entry k u; ...]`) compiled in parallel; the case
+    files load the .vo.  -> (prelude text defining DH, file stems to remove afterwards)"""
+    if not pairs:
+        return "Definition DH : dh_table := [].\n", []
+    os.makedirs(vlib.CASEDIR, exist_ok=True)
+    n = min(NPROC, len(pairs))
+    stems, names = [], []
+    for k in range(n):
+        name = "%sdh_%d" % (tag, k)
+        stem = os.path.join(vlib.CASEDIR, name)
+        with open(stem + ".v", "w") as f:
+            f.write(vlib.MODEL_HEADER % MODEL_IMPORT)
+            f.write("Definition tab : dh_table := Eval vm_compute in [%s].\n"
+                    % "; ".join("dh_entry %s %s" % (vlib.g_bytes(a), vlib.g_bytes(b)) for a, b in pairs[k::n]))
+        stems.append(stem)
+        names.append(name)
+
+    def one(name):
+        return vlib.sh("ulimit -s unlimited 2>/dev/null; coqc -q -noglob -Q . Kestrel Run/cases/%s.v" % name, cwd=vlib.COQ, timeout=900)[0]
+    with ThreadPoolExecutor(max_workers=NPROC) as ex:
+        rcs = list(ex.map(one, names))
+    good = [nm for nm, rc in zip(names, rcs) if rc == 0]
+    pre = "".join("Require Kestrel.Run.cases.%s.\n" % nm for nm in good)
+    pre += "Definition DH : dh_table := (%s)%%list.\n" % (" ++ ".join("Kestrel.Run.cases.%s.tab" % nm for nm in good) or "[]")
+    return pre, stems
